@@ -137,6 +137,8 @@ func runC06(c *Ctx) {
 	c.Rule("R06c", "digest construction: NewHashFile feeds Name() and Bytes() of every file into one running hash created outside the loop; HashFile.Sum covers N and H; MarshalText/UnmarshalText agree on the h1: prefix; UnmarshalText verifies the header sum and returns ErrChecksumMismatch", 4)
 	c.Rule("R06g", ruleTextSumLineSplit, 1)
 	checkSumLineSplit(c, "R06g")
+	c.Rule("R06h", ruleTextWriteReplaces, 2)
+	checkWriteReplaces(c, "R06h")
 	c.Rule("R06d", "migrate.Validate: compares stored and recomputed sums; every path through the mismatch branch returns a non-nil error; Executor.Pending validates before reading revisions or files", 3)
 
 	dir := c.dirIface()
